@@ -39,6 +39,9 @@ Proof.
   destruct p as [p|p|].
   - (* odd, at least 3 *)
     destruct p as [p|p|]; try discriminate.
+    { (* 5: quota history *)
+      destruct p as [p|p|]; try discriminate.
+      intros _. destruct (dec_hist l) as [[cap init] ops]. apply hist_code_model. }
     (* 3: cpuset *)
     intros Hwf.
     destruct (adjust (dec_adjust l)) as [[a b] c] eqn:Ea.
